@@ -456,8 +456,12 @@ inline std::string sanitizer_summary(const std::string &path)
             best = "ubsan:" + strip(line);
         }
         p = line.find("SUMMARY: ");
-        if (p != std::string::npos)
+        if (p != std::string::npos) {
+            // a stack overflow is reported at whatever frame happened to touch the guard page: keep the class only
+            if (line.find("stack-overflow") != std::string::npos)
+                return "AddressSanitizer: stack-overflow";
             return strip(line.substr(p + 9));
+        }
     }
     return best;
 }
